@@ -467,6 +467,14 @@ func (m *Manager) newSession(cn connection.Initial, params *connection.ConnectPa
 			if params.Cleaned || (ack != nil && ack.SessionPresent()) {
 				m.Metrics.Clients().OnRemoved(1)
 			}
+		} else if ses != nil {
+			// CONNACK could not be delivered (the client is gone already). The session is attached
+			// to its container and holds the container's lock, but its connection never gets online
+			// and will never report its end: do that here, otherwise the client id stays locked and
+			// no later CONNECT with it is ever answered
+			m.Metrics.Clients().OnConnected()
+			ses.SignalConnectionClose(connection.DisconnectParams{Reason: mqttp.CodeUnspecifiedError})
+			ses.start()
 		}
 	}()
 
